@@ -8,7 +8,7 @@ include!("img.rs");
 include!("store_common.rs");
 
 //@ harness: c09_store_replaceable_two
-//@ tier: quick
+//@ tier: thorough
 //@ timeout: 3000
 //@ mem: 20
 //@ covers: any
